@@ -35,6 +35,10 @@ Theorem C23_leak_is_unhealthy : forall st, all_referred_b st = false -> ~ health
 Proof. exact leak_refutes_health. Qed.
 Print Assumptions C23_leak_is_unhealthy.
 
+(* composite value (id, pad, arr, dict) *)
+Definition R (i pad : Z) (arr : list shape) (dict : list (Z * shape)) : shape :=
+  Sh i [(0, Sh pad []); (1, Sh 0 (map (fun s => (0, s)) arr)); (2, Sh 0 dict)].
+
 (* ---- contract updates (account.contracts.add / remove): the code-shaped model of the recorded-update map.
    The full statement is FALSE for the transcribed code (known finding): *)
 Definition C23_full_statement_with_contracts : Prop :=
@@ -57,7 +61,29 @@ Proof.
 Qed.
 Print Assumptions C23_full_statement_with_contracts_refuted.
 
-(* under the exact guard excluding the defect (no transaction removes a contract it added itself) every
+(* second defect of the transcribed code (known finding): a reference to a struct's array field is kept,
+   the field is overwritten (the old array is deep-removed), then the stale reference is used to append:
+   the removed slab is stored again and nothing references it.  Slab 2 is the arr field of the value saved
+   first; OPut ... (Pos 1) replaces the whole field. *)
+Theorem C23_stale_reference_refuted :
+  exists tx1 tx2 : list cop,
+    let st1 := snd (exec_ctx NoFault init tx1) in
+    fst (exec_ctx NoFault init tx1) = true /\ fst (exec_ctx NoFault st1 tx2) = true
+    /\ healthy st1 /\ ~ healthy (run_c NoFault init [tx1; tx2]).
+Proof.
+  exists [CStorage (OSave (1, 0) (R 1 0 [R 2 0 [] []] []))].
+  exists [CStorage (OPut false (1, 0) [] (Pos 1) (Sh 0 [(0, R 4 0 [] [])]) DDestroy); CStale 2 (R 5 0 [] [])].
+  cbv zeta. split; [vm_compute; reflexivity|]. split; [vm_compute; reflexivity|]. split.
+  - pose proof (healthy_with_contracts [[CStorage (OSave (1, 0) (R 1 0 [R 2 0 [] []] []))]]) as H.
+    assert (G : Forall (fun tx => no_add_remove [] tx = true) [[CStorage (OSave (1, 0) (R 1 0 [R 2 0 [] []] []))]])
+      by (constructor; [reflexivity|constructor]).
+    specialize (H G). inversion H; subst. assumption.
+  - apply leak_refutes_health. vm_compute. reflexivity.
+Qed.
+Print Assumptions C23_stale_reference_refuted.
+
+(* under the exact guard excluding the defects (no transaction removes a contract it added itself; no mutation
+   through a retained container reference) every
    history of storage operations, contract additions and contract removals keeps storage healthy *)
 Theorem C23_healthy_with_contracts_partial : forall h : list (list cop),
   Forall (fun tx => no_add_remove [] tx = true) h -> Forall healthy (trace_c NoFault init h).
@@ -70,9 +96,6 @@ Proof. exact exec_ctx_storage. Qed.
 Print Assumptions C23_storage_only_embedding.
 
 (* ---- non-vacuity: concrete histories *)
-(* composite value (id, pad, arr, dict) *)
-Definition R (i pad : Z) (arr : list shape) (dict : list (Z * shape)) : shape :=
-  Sh i [(0, Sh pad []); (1, Sh 0 (map (fun s => (0, s)) arr)); (2, Sh 0 dict)].
 
 Definition h1 : list (list op) :=
   [ [OSave (1, 1) (R 1 600 [R 2 700 [] []; R 3 10 [] []] [(5, R 4 900 [] [(7, R 8 0 [] [])])])];
